@@ -146,6 +146,10 @@ GridGlobal::GridGlobal(AccelerationContext const *acc, GridGlobal const *global,
 }
 
 void GridGlobal::setTensors(MultiIndexSet &&tset, int cnum_outputs, TypeOneDRule crule, double calpha, double cbeta){
+    // build the one dimensional rule first: it throws when the depth exceeds a hard-coded/custom table and then nothing has been modified yet
+    std::vector<int> new_max_levels = MultiIndexManipulations::getMaxIndexes(tset);
+    OneDimensionalWrapper new_wrapper(custom, *std::max_element(new_max_levels.begin(), new_max_levels.end()), crule, calpha, cbeta);
+
     clearGpuNodes();
     clearGpuValues();
     tensor_refs = std::vector<std::vector<int>>();
@@ -162,9 +166,9 @@ void GridGlobal::setTensors(MultiIndexSet &&tset, int cnum_outputs, TypeOneDRule
     rule = crule;
     alpha = calpha;  beta = cbeta;
 
-    max_levels = MultiIndexManipulations::getMaxIndexes(tensors);
+    max_levels = std::move(new_max_levels);
 
-    wrapper = OneDimensionalWrapper(custom, *std::max_element(max_levels.begin(), max_levels.end()), rule, alpha, beta);
+    wrapper = std::move(new_wrapper);
 
     MultiIndexManipulations::computeActiveTensorsWeights(tensors, active_tensors, active_w);
 
@@ -198,15 +202,17 @@ void GridGlobal::updateGrid(int depth, TypeDepth type, const std::vector<int> &a
     if ((num_outputs == 0) || points.empty()){
         makeGrid(num_dimensions, num_outputs, depth, type, rule, anisotropic_weights, alpha, beta, 0, level_limits);
     }else{
-        clearRefinement();
+        MultiIndexSet new_tensors = selectTensors((size_t) num_dimensions, depth, type, anisotropic_weights, rule, level_limits);
 
-        updated_tensors = selectTensors((size_t) num_dimensions, depth, type, anisotropic_weights, rule, level_limits);
-
-        if (!(updated_tensors - tensors).empty()){
-            updated_tensors += tensors;
+        if (!(new_tensors - tensors).empty()){
+            new_tensors += tensors;
+            // throws when the depth exceeds a hard-coded/custom table: must happen before the grid is modified
+            OneDimensionalWrapper(custom, new_tensors.getMaxIndex(), rule, alpha, beta);
+            clearRefinement();
+            updated_tensors = std::move(new_tensors);
             proposeUpdatedTensors();
         }else{
-            updated_tensors = MultiIndexSet(); // nothing new, do not leave a partial update behind
+            clearRefinement(); // nothing new, do not leave a partial update behind
         }
     }
 }
